@@ -10,7 +10,7 @@
 From Coq Require Import ZArith List.
 From Falcon Require Import Base.Res IL.Const IL.Expr IL.Func Exec.Sem
      Isa.A64 Isa.A64Lift Isa.A64Run Isa.A64Proofs Isa.A64Sim Isa.A64Arith Isa.A64Arith2
-     Isa.A64Branch Isa.A64Branch2 Isa.C03Check Isa.A64Tie Isa.A64Flags Isa.A64Flags2 Isa.A64Mem Isa.A64Load.
+     Isa.A64Branch Isa.A64Branch2 Isa.C03Check Isa.A64Tie Isa.A64Flags Isa.A64Flags2 Isa.A64Mem Isa.A64Load Isa.A64Store Isa.A64Pair Isa.A64Pair2 Isa.A64Wb.
 Import ListNotations.
 Local Open Scope Z_scope.
 
@@ -92,6 +92,42 @@ Theorem ldr_imm_sim : forall addr size opc (scaled : bool) imm rn rt,
   sim addr (ILdStImm size opc WOffset scaled imm rn rt).
 Proof. exact A64Load.ldr_imm_sim. Qed.
 Print Assumptions ldr_imm_sim.
+
+(* 4e. single-register STORES without write-back: STR (W, X), STRB, STRH; unsigned-offset and unscaled STUR forms;
+   transfer register 31 = ZR, base 31 = SP; both data endiannesses *)
+Theorem str_imm_sim : forall addr size (scaled : bool) imm rn rt,
+  0 <= size < 4 -> 0 <= rn < 32 -> 0 <= rt < 32 ->
+  sim addr (ILdStImm size 0 WOffset scaled imm rn rt).
+Proof. exact A64Store.str_imm_sim. Qed.
+Print Assumptions str_imm_sim.
+(* 4f. LDAR / LDLAR / STLR / STLLR and their B / H variants *)
+Theorem ldst_ord_sim : forall addr size (load o0 : bool) rn rt,
+  0 <= size < 4 -> 0 <= rn < 32 -> 0 <= rt < 32 -> sim addr (ILdStOrd size load o0 rn rt).
+Proof. exact A64Store.ldst_ord_sim. Qed.
+Print Assumptions ldst_ord_sim.
+
+(* 4g. pairs: STP / STNP and LDP / LDNP, 32- and 64-bit, signed-offset / pre-index / post-index / no-allocate,
+   with the write-back of the base (register 31 = SP); base = transfer register coincidences are
+   CONSTRAINED UNPREDICTABLE in the architecture (a64step = Undef) and hence outside the statement *)
+Theorem stp_sim : forall addr opc mode imm7 rt2 rn rt,
+  (opc = 0 \/ opc = 2) -> 0 <= rt < 32 -> 0 <= rt2 < 32 -> 0 <= rn < 32 ->
+  sim addr (ILdStPair opc mode false imm7 rt2 rn rt).
+Proof. exact A64Pair.stp_sim. Qed.
+Print Assumptions stp_sim.
+Theorem ldp_sim : forall addr opc mode imm7 rt2 rn rt,
+  (opc = 0 \/ opc = 2) -> 0 <= rt < 32 -> 0 <= rt2 < 32 -> 0 <= rn < 32 ->
+  sim addr (ILdStPair opc mode true imm7 rt2 rn rt).
+Proof. exact A64Pair2.ldp_sim. Qed.
+Print Assumptions ldp_sim.
+
+(* 4h. ALL single-register immediate-mode loads and stores: offset, pre-index and post-index (write-back of the
+   base, register 31 = SP), scaled and unscaled; every (size, opc) the decoder accepts.  Subsumes 4d and 4e. *)
+Theorem ldst_imm_sim : forall addr size opc mode (scaled : bool) imm rn rt,
+  0 <= size < 4 -> 0 <= opc < 4 -> decode_ldst_opc_ok size opc = true ->
+  0 <= rn < 32 -> 0 <= rt < 32 ->
+  sim addr (ILdStImm size opc mode scaled imm rn rt).
+Proof. exact A64Wb.ldst_imm_sim. Qed.
+Print Assumptions ldst_imm_sim.
 
 (* 5. branches *)
 Theorem b_sim : forall addr imm26, sim addr (IBImm false imm26).
